@@ -84,7 +84,8 @@ PROPS = {
         'nontrivial': {},
         'rule': "c03 driver: the provider mints really signed tokens (RS256 by the published key, by an unpublished key, alg=none, HS256 keyed with the public modulus, garbage signature, no id_token) x iss x 7 aud shapes x exp/iat/nbf "
                 "around the 5 s skew x nonce x sub x sid x acr, under 4 configurations (sid required, ACR configured / requested level, extra trusted audience, JWKS with and without alg, fetched over HTTP through the real "
-                "JwksProvider); base point + all single deviations + pairwise deviations (sampled in quick, all in thorough) + random points; each through the REAL callback; distinct = lattice point x config.",
+                "JwksProvider); base point + all single deviations + pairwise deviations (sampled in quick, all in thorough) + random points; each through the REAL callback; distinct = lattice point x config. Plus, per configuration, a CONCURRENT phase at function level: one really signed token validated at the same time by workers whose login cookie "
+                "carries its nonce (accept), another attempt's nonce (reject) or a higher requested level (reject): each decision must be the sequential one, whatever is validated beside it.",
         'level_text': "Proof: acceptIdToken = true implies every listed check (signature under a published key with that key's algorithm, so never none / symmetric-with-public; iss; aud contains client and no untrusted extra; "
                       "exp/iat/nbf within skew; nonce; sub; sid when required; acr present and at least the requested level, with the order substantial <= high and legacy names proved) - for every token, configuration and clock value. "
                       "The decision model is tied to the real callback (jwx verify/validate included) on the lattice; the Spec is evaluated on 'was a session created'.",
